@@ -30,9 +30,9 @@ VALUE_TEXT = {
     "int": st.one_of(st.integers(-999, 999), st.sampled_from([0, 0, 1])).map(str),
     "float": st.sampled_from(["1.5", "-2.25", "3.0", "1e-3", "0.0", "0.0"]),
     "boolean": st.sampled_from(["true", "false", "True", "False"]),
-    "date": st.dates().filter(lambda d: d.year >= 1000).map(lambda d: d.isoformat()),
+    "date": st.dates().map(lambda d: d.isoformat()),
     "time": st.times().map(lambda t: t.replace(microsecond=0).isoformat()),
-    "datetime": st.datetimes().filter(lambda d: d.year >= 1000)
+    "datetime": st.datetimes()
                   .map(lambda d: d.replace(microsecond=0).isoformat(sep=" ")),
     "binary": _WORD,
 }
@@ -96,7 +96,7 @@ def sec10(draw, depth):
 def doc10(draw, depth=2):
     return {
         "author": draw(opt(_TXT, 1)), "version": draw(opt(_WORD, 1)),
-        "date": draw(opt(st.dates().filter(lambda d: d.year >= 1000).map(lambda d: d.isoformat()), 1)),
+        "date": draw(opt(st.dates().map(lambda d: d.isoformat()), 1)),
         "id": draw(IDS),
         "sections": draw(st.lists(sec10(depth), max_size=3)),
         "extra": draw(st.lists(st.tuples(st.sampled_from(UNSUPPORTED_DOC), _WORD).map(list), max_size=3)),
